@@ -229,7 +229,7 @@ def tpmKeyAgreement (pa : TPMPubArea) (key : CoseKey) : Except Err Unit :=
     let xb ← needBytes m.2.1 "tpm.join"
     let yb ← needBytes m.2.2 "tpm.join"
     rejectE (pa.unique != xb ++ yb) (regErr "tpm.unique-xy")
-    let paCrv ← someOr (tpmEccCurveCoseCrvMap.lookup curveId) (nonlibErr "KeyError" "tpm.curve-map")
+    let paCrv ← someOr (tpmEccCurveCoseCrvMap.lookup curveId) (regErr "tpm.curve-unsupported")
     rejectE (m.1.asInt? != some paCrv) (regErr "tpm.curve")
 
 def verifyTpm (st : AttStmt) (authDataRaw : Cbor) (cdj : Bytes) (credKey : Bytes) (roots : List Root) : M Unit := do
@@ -252,7 +252,7 @@ def verifyTpm (st : AttStmt) (authDataRaw : Cbor) (cdj : Bytes) (credKey : Bytes
   let attToBeSigned ← liftE (attToBeSigned authDataRaw cdHash "tpm.join")
   let extra ← hashByAlgM attToBeSigned st.alg
   reject (ci.extraData != extra) (regErr "tpm.extra-data")
-  let nameCose ← liftE (someOr (tpmAlgCoseAlgMap.lookup pa.nameAlg) (nonlibErr "KeyError" "tpm.name-alg-map"))
+  let nameCose ← liftE (someOr (tpmAlgCoseAlgMap.lookup pa.nameAlg) (regErr "tpm.name-alg-unsupported"))
   let paHash ← hashByAlgM pubAreaBytes (some (cborOfInt nameCose))
   reject (ci.attested.nameAlg != pa.nameAlg) (regErr "tpm.attested-name-alg")
   reject (ci.attested.nameAlgBytes ++ paHash != ci.attested.name) (regErr "tpm.attested-name")
